@@ -37,6 +37,22 @@ def unquote(s):
     return s[1:-1] if len(s) >= 2 and s[0] == '"' and s[-1] == '"' else s
 
 
+def split_event(ln):
+    """Comma fields of an [Events] line; a comma inside a double-quoted file name belongs to the name."""
+    out, cur, quoted = [], [], False
+    for ch in ln:
+        if ch == '"':
+            quoted = not quoted
+            cur.append(ch)
+        elif ch == "," and not quoted:
+            out.append("".join(cur))
+            cur = []
+        else:
+            cur.append(ch)
+    out.append("".join(cur))
+    return out
+
+
 def conv(kind, v):
     v = v.strip()
     if kind == "str":
@@ -99,7 +115,7 @@ def parse_osu(lines):
     for ln in per.get("Events", []):
         if ln.startswith("//"):
             continue
-        f = ln.split(",")
+        f = split_event(ln)
         if f[0] in ("0", "Background") and background is None and len(f) >= 3:
             background = unquote(f[2])
         elif f[0] in ("Sample", "5"):
